@@ -106,11 +106,16 @@ class Check:
         if r == z3.unknown:
             raise Inconclusive(f'solver returned unknown on query {name}: {sol.reason_unknown()}')
         return (str(r), sol.model() if r == z3.sat else None)
-    def obligation(s, name, constraints, **kw):
-        """an obligation is discharged when `constraints` (assumptions + negated property) are unsat"""
+    def obligation(s, name, constraints, base=None, **kw):
+        """an obligation is discharged when `constraints` (assumptions + negated property) are unsat.
+        `base` (the assumptions alone) must be satisfiable, otherwise the obligation would hold vacuously."""
         s.obligations += 1
         r, m = s.solve(name, constraints, **kw)
-        if r == 'unsat': s.discharged += 1
+        if r == 'unsat':
+            if base is not None:
+                rb, _ = s.solve(name + ' [assumptions satisfiable]', base)
+                if rb != 'sat': raise Inconclusive(f'vacuous obligation (assumptions are unsatisfiable): {name}')
+            s.discharged += 1
         return r, m
 
     # ---- native replay
@@ -171,13 +176,13 @@ def run_check(pid, body):
         rc = chk.finish()
     except Inconclusive as e:
         print(f'INCONCLUSIVE property={pid}: {e}', flush=True)
-        chk.notes.append('INCONCLUSIVE: ' + str(e)); chk.finish(); rc = 2
+        chk.notes.append('INCONCLUSIVE: ' + str(e)); rc = chk.finish() or 2
     except (engine.Unmodelled,) as e:
         print(f'INCONCLUSIVE property={pid}: unmodelled call {e}', flush=True)
-        chk.notes.append('INCONCLUSIVE: unmodelled call ' + str(e)); chk.finish(); rc = 2
+        chk.notes.append('INCONCLUSIVE: unmodelled call ' + str(e)); rc = chk.finish() or 2
     except engine.EngineError as e:
         print(f'INCONCLUSIVE property={pid}: encoding error: {e}', flush=True)
-        chk.notes.append('INCONCLUSIVE: encoding error ' + str(e)); chk.finish(); rc = 2
+        chk.notes.append('INCONCLUSIVE: encoding error ' + str(e)); rc = chk.finish() or 2
     sys.exit(rc)
 
 # ---- small utilities shared by specs
